@@ -8,7 +8,8 @@ Record obs := mkObs { ob_err : nat; ob_fired : list (nat * nat); ob_drained : li
 
 (* a call of the wheel's API, or a driver gate operation (hold / release of a callback): the wheel
    is not involved, nothing may fire *)
-Inductive xcall := XC (c : call) | XGate.
+(* XTicks n seen: n ticks issued as one driver call; seen = (tick offset, (key, value)) of every callback of the burst *)
+Inductive xcall := XC (c : call) | XGate | XTicks (n : nat) (seen : list (nat * (nat * nat))).
 
 Record wcase := mkcase {
   c_interval : Z;            (* nanoseconds *)
@@ -36,11 +37,37 @@ Fixpoint perm_b (l1 l2 : list (nat * nat)) : bool :=
 
 Definition nil_b {A} (l : list A) : bool := match l with [] => true | _ => false end.
 
+Definition trip_eqb (a b : nat * (nat * nat)) : bool := (fst a =? fst b) && pair_eqb (snd a) (snd b).
+Definition same_trips (l1 l2 : list (nat * (nat * nat))) : bool :=
+  (length l1 =? length l2) && forallb (fun x => existsb (trip_eqb x) l2) l1 && forallb (fun x => existsb (trip_eqb x) l1) l2.
+
+(* n ticks on the model wheel: (offset, task) of everything fired, in order *)
+Fixpoint ticks_model (n i : nat) (w : wheel) (acc : list (nat * (nat * nat))) : option (wheel * list (nat * (nat * nat))) :=
+  match n with
+  | O => Some (w, List.rev acc)
+  | S n' =>
+      match api w CTick with
+      | Ok (w', m) => ticks_model n' (S i) w' (rev_append (map (pair i) (o_fired m)) acc)
+      | _ => None
+      end
+  end.
+
+Fixpoint ticks_spec (n i : nat) (sp : sst) (acc : list (nat * (nat * nat))) : sst * list (nat * (nat * nat)) :=
+  match n with
+  | O => (sp, acc)
+  | S n' => let (sp', f) := sstep sp STick in ticks_spec n' (S i) sp' (rev_append (map (pair i) f) acc)
+  end.
+
 (* ---- model agreement ---- *)
 Fixpoint model_run (w : wheel) (cs : list xcall) (os : list obs) : bool :=
   match cs, os with
   | [], [] => true
   | XGate :: cs', o :: os' => (ob_err o =? 0) && nil_b (ob_fired o) && nil_b (ob_drained o) && model_run w cs' os'
+  | XTicks n seen :: cs', o :: os' =>
+      match ticks_model n 0 w [] with
+      | Some (w', l) => (ob_err o =? 0) && nil_b (ob_drained o) && list_eqb trip_eqb l seen && model_run w' cs' os'
+      | None => false
+      end
   | XC c :: cs', o :: os' =>
       match api w c with
       | Ok (w', m) =>
@@ -75,6 +102,10 @@ Fixpoint spec_run (I : positive) (sp : sst) (closed drained : bool) (cs : list x
   match cs, os with
   | [], [] => true
   | XGate :: cs', o :: os' => (ob_err o =? 0) && quiet o && spec_run I sp closed drained cs' os'
+  | XTicks n seen :: cs', o :: os' =>
+      if closed then (ob_err o =? 0) && nil_b seen && spec_run I sp closed drained cs' os'
+      else let (sp', l) := ticks_spec n 0 sp [] in
+           (ob_err o =? 0) && nil_b (ob_drained o) && same_trips l seen && spec_run I sp' closed drained cs' os'
   | XC c :: cs', o :: os' =>
       if bad_args c then
         ((ob_err o =? 2) || (closed && (ob_err o =? 1))) && quiet o && spec_run I sp closed drained cs' os'
